@@ -75,8 +75,8 @@ func apply(n *chain.Node, o sop) error {
 
 // genScript builds a concrete script. prefixLen blocks (empty ones when long) are
 // part of Chains[*] but are stored before the scripted ops start.
-func genScript(rng *rand.Rand, newState bool, prefixLen, nops int) (*script, error) {
-	opts := chain.Opts{EventRich: true, NoNoopZero: lib.Avoid("noop-zero-write")}
+func genScript(rng *rand.Rand, newState bool, prefixLen, nops int, template bool) (*script, error) {
+	opts := chain.Opts{EventRich: true, NoNoopZero: lib.Avoid("noop-zero-write"), SystemOneIn: 3}
 	if prefixLen > 0 {
 		opts.Versions = []string{"0.14.0", "0.14.1"}
 	}
@@ -93,14 +93,48 @@ func genScript(rng *rand.Rand, newState bool, prefixLen, nops int) (*script, err
 	}
 	stale := false
 	stash := map[uint64]*chain.Blk{}
+	// template (every fifth short script): grow, graceful stop + restart (the running event filter
+	// is persisted), a reorg of k blocks right after the restart, regrowth on the other fork to
+	// exactly the old height, process death + restart; random operations follow. The fault phase
+	// then puts commit / put / read errors into these operations.
+	var forced []string
+	if template {
+		for i := 3 + rng.IntN(3); i > 0; i-- {
+			forced = append(forced, "S!")
+		}
+		forced = append(forced, "G")
+		k := 1 + rng.IntN(3)
+		for i := 0; i < k; i++ {
+			forced = append(forced, "R")
+		}
+		for i := 0; i < k; i++ {
+			forced = append(forced, "S!")
+		}
+		forced = append(forced, "U")
+		nops = max(nops, len(forced)+2)
+	}
 	for len(s.Ops) < nops {
 		var o sop
 		x := rng.IntN(100)
+		fresh := false
+		if len(forced) > 0 {
+			switch forced[0] {
+			case "S!":
+				x, fresh = 0, true
+			case "R":
+				x = 60
+			case "G":
+				x = 90
+			default:
+				x = 99
+			}
+			forced = forced[1:]
+		}
 		switch {
 		case cur.Len() == prefixLen && prefixLen == 0 || x < 50:
 			o.Kind = "S"
 			h := uint64(cur.Len())
-			if st, ok := stash[h]; ok && rng.IntN(3) == 0 && (cur.Len() == 0 || st.Block.ParentHash.Equal(cur.Tip().Block.Hash)) {
+			if st, ok := stash[h]; ok && !fresh && rng.IntN(3) == 0 && (cur.Len() == 0 || st.Block.ParentHash.Equal(cur.Tip().Block.Hash)) {
 				// store again the very block that was reverted
 				o.Blk = st
 				ns := cur.TipState().Clone()
@@ -357,7 +391,7 @@ func runCase(r *lib.Run, idx int, long bool) {
 		prefix = int(core.NumBlocksPerFilter) - 1 - rng.IntN(3) // 8189..8191 blocks: ops straddle the window edge
 		nops = 14
 	}
-	s, err := genScript(rng, newState, prefix, nops)
+	s, err := genScript(rng, newState, prefix, nops, !long && idx%5 == 2)
 	if err != nil {
 		r.Violation("generator:"+backend, idx, err.Error(), nil)
 		return
@@ -450,6 +484,14 @@ func runCase(r *lib.Run, idx int, long bool) {
 		}
 	}
 
+	// ---- phase 1c: EVERY fault position of single operations (every k-th point read, batch put and
+	// commit of an operation started on a fresh node over the image before it). An operation that
+	// reports failure must have left the database as it was, byte for byte; one that tolerates the
+	// fault must leave what the fault-free run leaves - judged by the probes when the bytes differ.
+	if !long && (idx%4 == 0 || idx%4 == 3 || !r.Quick()) && !r.Race { // both backends (odd idx: new state)
+		enumerateFaults(r, idx, s, rec0, base, bound, newState, backend)
+	}
+
 	// ---- phase 1b: the same on a real pebble store with real process deaths (every 4th short script)
 	onPebble := !long && idx%4 == 2 && !r.Race
 	if onPebble {
@@ -515,7 +557,10 @@ func runCase(r *lib.Run, idx int, long bool) {
 	for i, o := range s.Ops {
 		fault, fc, fp, fr := "none", 0, 0, 0
 		c := counts[i]
-		if o.Kind != "U" && rng.IntN(10) < 7 {
+		if i > 0 && o.Kind == "R" && s.Ops[i-1].Kind == "G" && c.commits > 0 && rng.IntN(2) == 0 {
+			// the first revert after a graceful restart does not commit
+			fault, fc = "commit", 1+rng.IntN(c.commits)
+		} else if o.Kind != "U" && rng.IntN(10) < 7 {
 			switch x := rng.IntN(10); {
 			case x < 5 && c.commits > 0:
 				fault, fc = "commit", 1+rng.IntN(c.commits)
@@ -596,6 +641,120 @@ func runCase(r *lib.Run, idx int, long bool) {
 	if idx < 2 || long {
 		r.Sample(map[string]any{"case": idx, "long": long, "script": s.opsString(), "commits_logged": total - base, "crash_images": total - base + 1})
 	}
+}
+
+func enumerateFaults(r *lib.Run, idx int, s *script, rec0 *chain.RecDB, base int, bound []int, newState bool, backend string) {
+	ps := chain.NewProbeSet()
+	for _, b := range s.All {
+		ps.AddBlock(b)
+	}
+	for i, o := range s.Ops {
+		if o.Kind != "S" && o.Kind != "R" {
+			continue
+		}
+		k0 := base
+		if i > 0 {
+			k0 = bound[i-1]
+		}
+		preDump := chain.Dump(rec0.Image(k0))
+		afterImg := rec0.Image(bound[i])
+		afterDump := chain.Dump(afterImg)
+		var afterObs chain.Obs
+		// positions: counted on a fresh node over the pre-image (a live node has warm caches)
+		dry := chain.NewRecDB(rec0.Image(k0))
+		dn := chain.NewNode(dry, newState)
+		dry.Arm(0, 0, 0)
+		if err := apply(dn, o); err != nil {
+			r.Violation(backend+":op-fails-on-restarted-node-without-fault:"+o.Kind, idx, fmt.Sprintf("%s on a node restarted before it: %v", o, err), s.opsString())
+			return
+		}
+		nc, np, nr := dry.Counters()
+		for _, f := range []struct {
+			name string
+			n    int
+		}{{"commit", nc}, {"put", np}, {"read", nr}} {
+			for k := 1; k <= f.n; k++ {
+				img := rec0.Image(k0)
+				rk := chain.NewRecDB(img)
+				node := chain.NewNode(rk, newState)
+				switch f.name {
+				case "commit":
+					rk.Arm(k, 0, 0)
+				case "put":
+					rk.Arm(0, k, 0)
+				default:
+					rk.Arm(0, 0, k)
+				}
+				err := apply(node, o)
+				fired := rk.Fired
+				rk.Arm(0, 0, 0)
+				r.Eval(1)
+				if !fired {
+					r.Count("enumerated.fault_position_not_reached", 1)
+					continue
+				}
+				r.Count("enumerated.faults:"+o.Kind+":"+f.name, 1)
+				got := chain.Dump(img)
+				wit := func(extra map[string]any) map[string]any {
+					m := map[string]any{"script": s.opsString(), "op_index": i, "op": o.String(), "fault": f.name, "position": k, "positions": f.n, "op_error": fmt.Sprint(err)}
+					for a, b := range extra {
+						m[a] = b
+					}
+					return m
+				}
+				if err != nil {
+					r.Count("enumerated.failed_ops_checked_for_leftovers", 1)
+					if !chain.DumpEqual(got, preDump) {
+						r.Violation(fmt.Sprintf("%s:failed-op-left-something-behind:%s:%s", backend, o.Kind, f.name), idx,
+							fmt.Sprintf("%s: %s failed with an injected %s error at position %d of %d (%v) but the database is not what it was before: %s", backend, o, f.name, k, f.n, err, dumpDiff(preDump, got)),
+							wit(map[string]any{"database_difference(before vs after the failed op)": dumpDiff(preDump, got)}))
+						return
+					}
+					continue
+				}
+				r.Count("enumerated.tolerated_faults", 1)
+				if chain.DumpEqual(got, afterDump) {
+					continue
+				}
+				// bytes differ: is it observable?
+				if afterObs == nil {
+					afterObs = chain.Probe(chain.NewNode(afterImg, newState).BC, ps)
+				}
+				d := chain.Diff(chain.Probe(chain.NewNode(img, newState).BC, ps), afterObs, 8)
+				if len(d) == 0 {
+					r.Count("enumerated.tolerated_faults_with_different_bytes_but_same_answers", 1)
+					continue
+				}
+				r.Violation(fmt.Sprintf("%s:op-tolerates-fault-with-wrong-result:%s:%s", backend, o.Kind, f.name), idx,
+					fmt.Sprintf("%s: %s reported success although an injected %s error hit position %d of %d; the node then answers differently from one that never saw the fault: %s", backend, o, f.name, k, f.n, d[0]),
+					wit(map[string]any{"differences(node vs fault-free)": d, "database_difference": dumpDiff(afterDump, got)}))
+				return
+			}
+		}
+	}
+	r.Count("enumerated.scripts", 1)
+}
+
+// dumpDiff: first differing key of two sorted dumps.
+func dumpDiff(a, b []chain.KVPair) string {
+	am := map[string]string{}
+	for _, kv := range a {
+		am[string(kv.K)] = string(kv.V)
+	}
+	for _, kv := range b {
+		v, ok := am[string(kv.K)]
+		switch {
+		case !ok:
+			return fmt.Sprintf("key %x (bucket %d, %d bytes) is new", kv.K, kv.K[0], len(kv.V))
+		case v != string(kv.V):
+			return fmt.Sprintf("key %x (bucket %d) changed", kv.K, kv.K[0])
+		}
+		delete(am, string(kv.K))
+	}
+	for k := range am {
+		return fmt.Sprintf("key %x (bucket %d) is gone", []byte(k), k[0])
+	}
+	return "none"
 }
 
 func stateOfPrefix(blocks []*chain.Blk) *chain.State {
